@@ -354,7 +354,151 @@ def rule_f(ctx, out):
         raise AnalysisError(f"only {n} cut sets evaluated")
 
 
+def rule_g(ctx, out):
+    """split_blocks cuts the rbr instruction list after every splitting / terminating opcode.  Contract its consumers rely on: the
+    pieces re-assemble to the input when the two shared lines (the split instruction and its annotation) of every later piece are
+    dropped; every later piece starts with exactly those two lines; every piece but the last ends with a split annotation and no
+    piece has one in its interior.  Evaluated abstractly on every opcode sequence of length 1..4 over {ordinary, split, store,
+    terminating} opcodes, with and without stores being split instructions (-storage)."""
+    import itertools
+    from ..core.interp import ModuleInterp
+    from ..core.minieval import Unsupported, Raised
+    f = ctx.func(f"{GO}.split_blocks")
+
+    class Rule:
+        def __init__(self, ins):
+            self._ins = ins
+
+        def get_instructions(self):
+            return self._ins
+    mi = ModuleInterp(ctx, max_steps=100000, obj_types=(Rule,))
+    consts = mi.module_env("global_params.constants")
+    base_split = consts.get("split_block")
+    stores = consts.get("store_instructions")
+    term = mi.module_env(GO).get("terminate_block")
+    if not isinstance(base_split, (set, frozenset)) or not isinstance(stores, (set, frozenset)) or not term:
+        raise AnalysisError("constants.split_block / store_instructions / terminate_block are not available to the abstract evaluation")
+    n = 0
+    for with_storage in (False, True):
+        split_now = set(base_split) | (set(stores) if with_storage else set())
+        consts["split_block"] = split_now
+        alphabet = ["ADD", sorted(base_split)[0], "SSTORE", list(term)[0]]
+        for length in (1, 2, 3, 4):
+            for ops in itertools.product(alphabet, repeat=length):
+                instrs = []
+                for k, o in enumerate(ops):
+                    instrs += [f"s({k}) = f{k}(s({k + 1}))", f"nop({o})"]
+                try:
+                    pieces = mi.call(f, Rule(list(instrs)), False, [])
+                except Raised as e:
+                    out.bad("split_blocks:raises", f"split_blocks raises {e.what} on {list(ops)}", where(f))
+                    continue
+                except Unsupported as e:
+                    raise AnalysisError(f"split_blocks: cannot evaluate abstractly: {e}")
+                n += 1
+                is_split = lambda line: line.startswith("nop(") and (line[4:-1] in split_now or line[4:-1] in term)
+                problem = None
+                if not isinstance(pieces, list) or not pieces or not all(isinstance(p, list) for p in pieces):
+                    problem = "result-shape"
+                else:
+                    rebuilt = list(pieces[0])
+                    for prev, cur in zip(pieces, pieces[1:]):
+                        if cur[:2] != prev[-2:]:
+                            problem = "piece-does-not-start-with-the-shared-split-instruction"
+                            break
+                        rebuilt += cur[2:]
+                    if problem is None and rebuilt != instrs:
+                        problem = "pieces-do-not-re-assemble"
+                    if problem is None and len(pieces) != 1 + sum(1 for x in instrs if is_split(x)):
+                        problem = "number-of-pieces"
+                    if problem is None:
+                        for i, pc in enumerate(pieces):
+                            interior = pc[2:-1] if i > 0 else pc[:-1]
+                            if any(is_split(x) for x in interior) or (i < len(pieces) - 1 and not is_split(pc[-1])):
+                                problem = "split-instruction-inside-a-piece"
+                                break
+                if problem is None:
+                    out.ok()
+                else:
+                    out.bad(f"split_blocks:{problem}{':storage' if with_storage else ''}", f"split_blocks on the opcodes {list(ops)} "
+                            f"({'stores split' if with_storage else 'stores not split'}): {problem.replace('-', ' ')}", where(f), {"pieces": repr(pieces)[:300]})
+    consts["split_block"] = base_split
+    out.samples.append({"opcode_sequences_evaluated": n})
+    if n < 600:
+        raise AnalysisError(f"only {n} opcode sequences evaluated")
+
+
+def rule_h(ctx, out):
+    """rebuild(B, nothing replaced) = B, and a replaced sub-block changes its own segment only: decided by abstract evaluation of the
+    stitching on the bounded block family of C09.f (14 of its 56 members replace nothing)."""
+    from . import C09
+    C09.rule_f(ctx, out)
+
+
+def rule_i(ctx, out):
+    """The sub-block list a block was split into is what the rebuild walks over afterwards, so whatever else receives that list in
+    between must leave it as it is.  Every repository function that is called with a variable which the same caller also hands to
+    rebuild_optimized_asm_block is interpreted on lists of sub-blocks (1..3 sub-blocks with shared split instructions); the argument
+    must be unchanged after the call, nested lists included."""
+    import copy
+    from ..core.interp import ModuleInterp
+    from ..core.minieval import Unsupported, Raised
+    REBUILD_NAME = "rebuild_optimized_asm_block"
+    consumers = {}
+    n_callers = 0
+    for f in ctx.p.functions.values():
+        handed = set()
+        for c in calls_in(f.node, REBUILD_NAME):
+            for a in c.args[1:2]:
+                if isinstance(a, ast.Name):
+                    handed.add(a.id)
+        if not handed:
+            continue
+        n_callers += 1
+        for c in calls_in(f.node):
+            if call_name(c) == REBUILD_NAME:
+                continue
+            for pos, a in enumerate(c.args):
+                if isinstance(a, ast.Name) and a.id in handed:
+                    for t in ctx.r.resolve_call(f, c):
+                        consumers[(t.qual, pos)] = (t, f)
+    if not n_callers:
+        raise AnalysisError("no caller hands a sub-block list variable to rebuild_optimized_asm_block")
+    mi = ModuleInterp(ctx, max_steps=100000)
+    families = [[["PUSH 1", "ADD"]],
+                [["PUSH 1", "LOG0"], ["LOG0", "ADD", "POP"]],
+                [["PUSH 1", "LOG0"], ["LOG0", "SSTORE"], ["SSTORE", "ADD"]],
+                [["CALL"], ["CALL", "POP"]],
+                [["PUSH 1", "SSTORE"], ["SSTORE"]]]
+    n = 0
+    for (qual, pos), (t, caller) in sorted(consumers.items()):
+        if len(t.params) <= pos:
+            continue
+        for fam in families:
+            arg = copy.deepcopy(fam)
+            args = [None] * len([p_ for p_ in t.params])
+            args = args[:pos] + [arg]
+            try:
+                mi.call(t, *args)
+            except Raised:
+                pass
+            except Unsupported as e:
+                raise AnalysisError(f"{t.name} (receives the sub-block list in {caller.name}) cannot be evaluated abstractly: {e}")
+            n += 1
+            if arg == fam:
+                out.ok({"function": t.qual, "sub_blocks": len(fam), "argument": "unchanged"})
+            else:
+                out.bad(f"sub-block-list-mutated-by:{t.name}", f"{t.name} changes the sub-block list it is given ({fam} becomes {arg}); {caller.name} hands the same "
+                        f"list to {REBUILD_NAME} afterwards, which then walks over the wrong instructions", where(t))
+    out.samples.append({"functions_receiving_the_sub_block_list": sorted(q for q, _ in consumers)})
+    if n < 5:
+        raise AnalysisError(f"only {n} calls evaluated: no function receiving the sub-block list was found")
+
+
 RULES = [
+    ("C14.i", "functions handed the sub-block list leave it intact (by evaluation)", 5, rule_i),
+    ("C14.g", "splitting at split instructions: pieces, shared lines and re-assembly (by evaluation)", 600, rule_g),
+    ("C14.h", "rebuild on a bounded block family: identity when nothing is replaced, own segment otherwise (by evaluation)", 50, rule_h),
     ("C14.f", "numeric partition: pieces, overlaps and re-assembly", 25, rule_f),
     ("C14.e", "partition cuts: relative positions are re-based by the offset of the cut", 1, rule_e),
     ("C14.d", "variable numbers are compared as numbers", 6, rule_d),
